@@ -1035,3 +1035,10 @@ Proof. intros H db k x Hd. rewrite (conservation _ _ _ H db k x Hd). pose proof 
 (** the event loop does not end; every stored value is a list *)
 Theorem no_crash st P R : reach_g st P R -> b_crashed (snd st) = false.
 Proof. intros H. destruct (reach_g_ginv _ _ _ H) as (_ & Hc & _). exact Hc. Qed.
+
+Lemma gtrace_reach : forall evs st P R, reach_g st P R -> all_ok_cons st evs = true ->
+  reach_g (fst (fst (gtrace st P R evs))) (snd (fst (gtrace st P R evs))) (snd (gtrace st P R evs)).
+Proof.
+  induction evs as [|e evs IH]; intros st P R H Hok; cbn [gtrace all_ok_cons] in *; [exact H|].
+  apply andb_true_iff in Hok. destruct Hok as [H1 H2]. apply IH; [apply rg_step; assumption|exact H2].
+Qed.
